@@ -78,7 +78,7 @@ def rules(ctx: Ctx) -> None:
                             args.append((kw.arg, kw.value, False))
                     in_model_ctor = f.name == "__init__" and f.cls is not None and f.cls.qual in nf.model_quals
                     for pn, a, is_elems in args:
-                        st = nf.elem_state(a, f, 0, None) if is_elems else nf.state(a, f)
+                        st = nf.query_elems(a, f) if is_elems else nf.query(a, f)
                         if in_model_ctor:
                             # values derived from the constructor's own parameters are judged at its call sites
                             st = _own_default_states(nf, prog, a, f)
@@ -100,7 +100,7 @@ def rules(ctx: Ctx) -> None:
                     pt = prog.infer(par.func, f)
                     if any(a.kind == "cls" and a.name in nf.model_quals for a in pt.alts()):
                         continue
-                st = nf.state(n.args[0], f)
+                st = nf.query(n.args[0], f)
                 if f.name == "__init__" and f.cls is not None and f.cls.qual in nf.model_quals:
                     # inside a constructor only the constructor's own defaults are judged (the parameters are judged at the call sites)
                     st = _own_default_states(nf, prog, n.args[0], f)
@@ -205,6 +205,15 @@ def rules(ctx: Ctx) -> None:
 
     import_rules(ctx, "C07", {"R07.3": "R16.6"})  # each part of a dotted qualifier is normalised on its own (= R07.3)
 
+    # ---- R16.7 (= R02.2, implicit aliases): an un-aliased table enters the alias map under its own name normalised once more, so a quoted
+    # mixed-case relation answers to the lower-case qualifier as well; which relation wins then depends on the merge order of the scope map
+    from .common import import_rules as _imp16
+
+    _imp16(ctx, "C02", {"R02.2": "R16.7"}, key_filter=lambda o: "implicit-alias-competes" in o.key)
+
+    # ---- R16.8 (= R08.2): look-up keys among CTE aliases are normalised exactly once
+    _imp16(ctx, "C08", {"R08.2": "R16.8"})
+
 
 def reference_parts_rule(ctx: Ctx, rule: str) -> None:
     """The parts of a dotted reference come from the parse tree (identifier children), never from splitting its text at '.': a quoted
@@ -242,12 +251,12 @@ def _own_default_states(nf: NormForm, prog: Prog, arg: ast.AST, init: Fn) -> set
     # direct: escape(kwargs.pop("alias", self.raw_name))
     for k in ast.walk(arg):
         if isinstance(k, ast.Call) and isinstance(k.func, ast.Attribute) and k.func.attr in ("pop", "get") and len(k.args) > 1:
-            out |= nf.state(k.args[1], init)
+            out |= nf.query(k.args[1], init)
     # loop variables over kwargs.pop("source_columns", DEFAULT)
     for nm in names:
         for kind, node in prog.local_defs(init, nm):
             it = getattr(node, "iter", None)
             if it is not None and isinstance(it, ast.Call) and isinstance(it.func, ast.Attribute) and it.func.attr in ("pop", "get") and len(it.args) > 1:
                 idx = int(kind.split(":")[1]) if kind.startswith("unpack:") and kind.split(":")[1].isdigit() else None
-                out |= nf.elem_state(it.args[1], init, 0, idx)
+                out |= nf.query_elems(it.args[1], init, idx)
     return out
